@@ -292,6 +292,10 @@ def mech_of(task, tag):
             tag == 'construct-raises-ValueError' and \
             (task['size'][0] % 2 == 1 or task['size'][1] % 2 == 1):
         tag += '/odd-size-code-is-not-css'
+    if task['decoder'] == 'MemoryBeliefPropagationDecoder' and \
+            task['noise'].startswith('pure') and min(task['size']) == 1 \
+            and tag == 'zero-syndrome-nonzero-correction':
+        tag += '/pure-noise-on-width-1-lattice'
     if (task.get('decoder_kwargs') or {}).get('osd_order', 0) > 10:
         tag += '/generate-input-parameters'
     return f'{base}/{rect}/{tag}'
@@ -615,6 +619,11 @@ def classify(v):
     if m.startswith('UnionFindDecoder/Toric2DCode/') and \
             m.endswith('/wrong-syndrome/period-2-double-edges'):
         return 'C05:UnionFindDecoder/Toric2DCode/period-2-double-edges'
+    if m.startswith('MemoryBeliefPropagationDecoder/') and \
+            m.endswith('/zero-syndrome-nonzero-correction/'
+                       'pure-noise-on-width-1-lattice'):
+        return ('C05:MemoryBeliefPropagationDecoder/'
+                'pure-noise-nan-on-width-1-lattice')
     if m.startswith('RotatedSweepMatchDecoder/RotatedToric3DCode/') and \
             m.endswith('/odd-size-code-is-not-css') and \
             'not CSS' in v['what']:
